@@ -108,6 +108,19 @@ for _h in HOOKS + PP_HOOKS + ['init', 'on_create'] + GENERIC:
 generated.register(FaultProg, 'FaultProg')
 
 
+class FaultProgReq(FaultProg):
+    """The same with a required output that the programs do not emit: the first entry into FINISHED is refused and made again,
+    unsuccessfully (every hook of the finishing transition runs twice: a fault in the second round is a fault like any other)."""
+
+    @classmethod
+    def define(cls, spec):
+        super().define(spec)
+        spec.output('req', valid_type=int, required=True)
+
+
+generated.register(FaultProgReq, 'FaultProgReq')
+
+
 class FaultListener(lifecycle.RecListener):
     pass
 
@@ -145,7 +158,7 @@ def _cb_factory(proc, mode, tag):
 
 class FaultRun(lifecycle.Run):
     def _make_class(self):
-        return programs.program_class(self.case['program'], FaultProg)
+        return programs.program_class(self.case['program'], FaultProgReq if self.case['program'].get('req_output') else FaultProg)
 
     def _release_for_collection(self):
         # the injected exception is kept for identity checks; its traceback holds the frames (and through them the task) of the
@@ -199,6 +212,7 @@ def _programs(tier, seed):
         'failing': {'steps': [S(['cont', [], {}], yields=1, fx=[(0, ['out', 'o1', 1])]), S(['raise', 'prog-fails'], yields=1)]},
         'killcmd': {'steps': [S(['wait', 'w', None], yields=1), S(['kill', 'prog-kill'], sync=True)]},
         'unsucc': {'steps': [S(['unsucc', 2], sync=True, fx=[(0, ['soon', 'ok', 'c0'])])]},
+        'reqmissing': {'steps': [S(['cont', [], {}], yields=1), S(['value', 3], sync=True)], 'req_output': True},
     }
     if tier == 'thorough':
         rng = plans.rng_for(seed, 'c03')
@@ -267,7 +281,13 @@ def gen_cases(tier, seed):
                     cases.append({'kind': 'outline', 'name': 'outline%d' % oi, 'scenario': 'script%d' % si, 'ast': ast_, 'preds': preds, 'rets': rets,
                                   'fault': [point, pos, occ]})
     for name, prog in sorted(_programs(tier, seed).items()):
-        for scen, plan in sorted(_scenarios(prog).items()):
+        scenarios = dict(_scenarios(prog))
+        if any(fx[0] == 'soon' for st in prog['steps'] for _pos, fx in st.get('fx', ())):
+            # a kill requested at every slot (only recorded while a step is in flight, carried out later): a scheduled callback that
+            # fails inside that window still ends the process EXCEPTED with its exception
+            for s0 in range(0, plans.slots_of(prog) + 1):
+                scenarios['kill@%d' % s0] = [{'at': s0, 'act': ['kill', 'kw%d' % s0]}]
+        for scen, plan in sorted(scenarios.items()):
             base = {'name': name, 'scenario': scen, 'program': prog, 'plan': plan, 'drain': True, 'listener': True, 'collect_dead_tasks': True}
             FAULT = None
             try:
@@ -279,6 +299,8 @@ def gen_cases(tier, seed):
             for key, n in sorted(counts.items()):
                 point, pos = key.rsplit('/', 1)
                 for occ in range(1, n + 1):
+                    if scen.startswith('kill@') and point != 'callback':
+                        continue  # (these scenarios are about the callbacks only; the hooks are covered by 'kill')
                     if scen.startswith('reinc') and point == 'init' and occ > 1:
                         continue  # (init() of the recreated instance: the load raises to whoever loads, i.e. to the harness)
                     cases.append(dict(base, fault=[point, pos, occ]))
